@@ -38,9 +38,8 @@ impl Obs {
             Obs::Sym(s) => s.clone(),
             Obs::Nil => "()".into(),
             Obs::Pair(a, b) => format!("({} . {})", a.short(), b.short()),
-            Obs::Vector(m, v) => format!(
-                "#{}({})",
-                if *m { "" } else { "i" },
+            Obs::Vector(_, v) => format!(
+                "#({})",
                 v.iter().map(|x| x.short()).collect::<Vec<_>>().join(" ")
             ),
             Obs::Proc => "<proc>".into(),
@@ -53,8 +52,10 @@ impl Obs {
         match (self, got) {
             (Obs::Unspec, _) => true,
             (Obs::Pair(a, b), Obs::Pair(c, d)) => a.accepts(c) && b.accepts(d),
-            (Obs::Vector(m, v), Obs::Vector(n, w)) => {
-                m == n && v.len() == w.len() && v.iter().zip(w).all(|(x, y)| x.accepts(y))
+            // mutability is judged by behaviour (vector-set! on a literal must be refused),
+            // not by how the implementation happens to represent a literal
+            (Obs::Vector(_, v), Obs::Vector(_, w)) => {
+                v.len() == w.len() && v.iter().zip(w).all(|(x, y)| x.accepts(y))
             }
             (a, b) => a == b,
         }
